@@ -119,7 +119,8 @@ HsRead(id, msg, outlen) ==
      ELSE LET st1 == Rollback(st, r.st) IN
           /\ ep' = [ep EXCEPT ![id].st = st1]
           /\ Log(Step("hs_read", id, args,
-                      [res |-> "err", cause |-> r.cause, kinds |-> KindsOf(r.cause), obs |-> HsObs(st1)]))
+                      [res |-> "err", cause |-> r.cause, kinds |-> KindsOf(r.cause), obs |-> HsObs(st1),
+                       noleak |-> LeakSet(msg)]))
   /\ UNCHANGED aeadLog
 
 SetPsk(id, loc, key) ==
@@ -173,7 +174,7 @@ TrRead(id, msg, outlen) ==
           /\ Log(Step("t_read", id, args, [res |-> "ok", len |-> r.plen, payload |-> r.payload,
                                            obs |-> TrObs(r.ts, TRUE)]))
      ELSE /\ UNCHANGED ep
-          /\ Log(Step("t_read", id, args, [res |-> "err", causes |-> r.causes,
+          /\ Log(Step("t_read", id, args, [res |-> "err", causes |-> r.causes, noleak |-> LeakSet(msg),
                                            kinds |-> KindsOfSet(r.causes), obs |-> TrObs(ts, TRUE)]))
   /\ UNCHANGED aeadLog
 
@@ -229,7 +230,7 @@ SlRead(id, n, msg, outlen) ==
      IF r.causes = {}
      THEN Log(Step("s_read", id, args, [res |-> "ok", len |-> r.plen, payload |-> r.payload,
                                         obs |-> TrObs(ts, FALSE)]))
-     ELSE Log(Step("s_read", id, args, [res |-> "err", causes |-> r.causes,
+     ELSE Log(Step("s_read", id, args, [res |-> "err", causes |-> r.causes, noleak |-> LeakSet(msg),
                                         kinds |-> KindsOfSet(r.causes), obs |-> TrObs(ts, FALSE)]))
   /\ UNCHANGED <<ep, aeadLog>>
 
